@@ -102,7 +102,7 @@ def one_case(case):
         f.write(text)
     sched = os.path.join(tmp, 'sched%d.json' % n)
     json.dump({'chunks': [[case['delays'][i], c] for i, c in enumerate(chunks)], 'status': status,
-               'stdout': [[0, 'first'], [len(chunks), 'last']], 'linger': case['linger']}, open(sched, 'w'))
+               'stdout': [[0, 'first'], [len(chunks), 'last']], 'linger': case['linger'], 'close_err': case.get('close_err', False)}, open(sched, 'w'))
     obs = {}
     rc, out, err = run_tool(['-l', logf], b'quit\n')
     obs['file'] = (rc, out, err)
@@ -183,7 +183,8 @@ def run(ctx):
             ref['events'].append({'in': {'e': 'eof'}})
             e1.run(ref, render={'dialect': 'new'})
             want2 = norm([key_of(i) for e in ref['events'] for i in e['obs']['items']])
-            for comp in comps:
+            for sch in comps:
+                comp, close_err = sch['writes'], sch['closeErr']
                 if sum(comp) != len(pieces):
                     comp = [c for c in comp]
                     # stream B has 5 abstract bytes: use the compositions of the first 5
@@ -204,16 +205,19 @@ def run(ctx):
                 n = len(cases)
                 cases.append({'tmp': tmp, 'n': n, 'lines': [l1, l2], 'chunks': chunks, 'status': statuses[n % len(statuses)],
                               'extra': EXTRA[n % len(EXTRA)], 'delays': [0.01 if (n % 3 == 0 and i) else 0 for i in range(len(chunks))],
-                              'linger': 0 if n % 2 else 0.03, 'want': want2, 'session': -1})
+                              'linger': (1.3 if n % 4 else 2.2) if close_err else (0 if n % 2 else 0.03), 'close_err': close_err,
+                              'want': want2, 'session': -1})
         if ctx.quick:
-            keep = [c for c in cases if c['session'] != -1] + ctx.rnd.sample([c for c in cases if c['session'] == -1], 24)
+            keep = ([c for c in cases if c['session'] != -1] + ctx.rnd.sample([c for c in cases if c['session'] == -1 and not c['close_err']], 20)
+                    + ctx.rnd.sample([c for c in cases if c['session'] == -1 and c['close_err']], 6))
             cases = [dict(c, n=i) for i, c in enumerate(keep)]
         with ThreadPoolExecutor(max_workers=12) as ex:
             results = list(ex.map(one_case, cases))
         runs = []
         for case, obs in zip(cases, results):
             rep.case(json.dumps([case['chunks'], case['status'], case['extra']]))
-            rp = {'kind': 'modes', 'chunks': case['chunks'], 'status': case['status'], 'extra': case['extra'], 'delays': case['delays'], 'want': case['want']}
+            rp = {'kind': 'modes', 'chunks': case['chunks'], 'status': case['status'], 'extra': case['extra'], 'delays': case['delays'], 'want': case['want'],
+                  'linger': case['linger'], 'close_err': case.get('close_err', False)}
             shown = {}
             for mode in ('file', 'pipe', 'run'):
                 rc, out, err = obs[mode]
@@ -290,7 +294,7 @@ def replay(ctx, data):
     tmp = tempfile.mkdtemp(prefix='c13r-', dir=os.path.join(tlc.OUT, 'tmp'))
     try:
         case = {'tmp': tmp, 'n': 0, 'lines': [], 'chunks': data['chunks'], 'status': data['status'], 'extra': data['extra'],
-                'delays': data['delays'], 'linger': 0}
+                'delays': data['delays'], 'linger': data.get('linger', 0), 'close_err': data.get('close_err', False)}
         obs = one_case(case)
         for mode in ('file', 'pipe', 'run'):
             rc, out, err = obs[mode]
